@@ -45,6 +45,9 @@
 #include "scpi/error.h"
 #include "scpi/constants.h"
 #include "scpi/utils.h"
+#ifdef SCPI_PARSER_VERIF
+#include "verif_hooks.h"
+#endif
 
 /**
  * Write data to SCPI output
@@ -205,9 +208,15 @@ scpi_bool_t SCPI_Parse(scpi_t * context, char * data, int len) {
     state = &context->parser_state;
     context->output_count = 0;
     context->first_output = TRUE;
+#ifdef SCPI_PARSER_VERIF
+    SCPI_VERIF_EVENT(context, SCPI_VERIF_EV_MSG_BEGIN, data, len, 0);
+#endif
 
     while (1) {
         r = scpiParser_detectProgramMessageUnit(state, data, len);
+#ifdef SCPI_PARSER_VERIF
+        SCPI_VERIF_EVENT(context, SCPI_VERIF_EV_UNIT, data, r, (int) state->programHeader.type);
+#endif
 
         if (state->programHeader.type == SCPI_TOKEN_INVALID) {
             SCPI_ErrorPush(context, SCPI_ERROR_INVALID_CHARACTER);
@@ -249,6 +258,9 @@ scpi_bool_t SCPI_Parse(scpi_t * context, char * data, int len) {
     /* conditionally write new line */
     writeNewLine(context);
 
+#ifdef SCPI_PARSER_VERIF
+    SCPI_VERIF_EVENT(context, SCPI_VERIF_EV_MSG_END, data, len, (int) result);
+#endif
     return result;
 }
 
@@ -318,6 +330,9 @@ scpi_bool_t SCPI_Input(scpi_t * context, const char * data, int len) {
     size_t totcmdlen = 0;
     int cmdlen = 0;
 
+#ifdef SCPI_PARSER_VERIF
+    SCPI_VERIF_UNPOISON_INPUT(context);
+#endif
     if (len == 0) {
         context->buffer.data[context->buffer.position] = 0;
         result = SCPI_Parse(context, context->buffer.data, context->buffer.position);
@@ -331,11 +346,17 @@ scpi_bool_t SCPI_Input(scpi_t * context, const char * data, int len) {
             context->buffer.position = 0;
             context->buffer.data[context->buffer.position] = 0;
             SCPI_ErrorPush(context, SCPI_ERROR_INPUT_BUFFER_OVERRUN);
+#ifdef SCPI_PARSER_VERIF
+            SCPI_VERIF_POISON_INPUT_TAIL(context);
+#endif
             return FALSE;
         }
         memcpy(&context->buffer.data[context->buffer.position], data, len);
         context->buffer.position += len;
         context->buffer.data[context->buffer.position] = 0;
+#ifdef SCPI_PARSER_VERIF
+        SCPI_VERIF_POISON_INPUT_TAIL(context);
+#endif
 
 
         while (1) {
@@ -347,6 +368,9 @@ scpi_bool_t SCPI_Input(scpi_t * context, const char * data, int len) {
                 memmove(context->buffer.data, context->buffer.data + totcmdlen, context->buffer.position - totcmdlen);
                 context->buffer.position -= totcmdlen;
                 totcmdlen = 0;
+#ifdef SCPI_PARSER_VERIF
+                SCPI_VERIF_POISON_INPUT_TAIL(context);
+#endif
             } else {
                 if (context->parser_state.programHeader.type == SCPI_TOKEN_UNKNOWN
                         && context->parser_state.termination == SCPI_MESSAGE_TERMINATION_NONE) break;
@@ -355,6 +379,9 @@ scpi_bool_t SCPI_Input(scpi_t * context, const char * data, int len) {
         }
     }
 
+#ifdef SCPI_PARSER_VERIF
+    SCPI_VERIF_POISON_INPUT_TAIL(context);
+#endif
     return result;
 }
 
